@@ -58,6 +58,13 @@ pub(super) fn view_point(accept: &Accept) -> crate::verif::Point {
     }
 }
 
+pub(super) fn queue_drained_point(queue: &crate::waker_queue::WakerQueue) -> crate::verif::Point {
+    // `try_lock` fails while this thread still holds the guard it saw the empty queue through
+    crate::verif::Point::QueueDrained {
+        lock_held: queue.1.try_lock().is_err(),
+    }
+}
+
 pub(crate) fn peer_of(io: &MioStream) -> String {
     match io {
         // peer and local address: one client port may be in use towards two listeners at once
